@@ -154,7 +154,7 @@ func splitSubscribeRequest(sctx *subContext, req *gnmi.SubscribeRequest) error {
 	// Otherwise, iterate over the subscriptions and separate them into multiple subscription requests
 	// based on the target specified in each path using the original request as a template.
 	for _, sub := range subs.Subscription {
-		target := sub.Path.Target
+		target := sub.GetPath().GetTarget() // the path may be absent
 		var tr *gnmi.SubscribeRequest
 		if target != "" {
 			ok := false
